@@ -78,10 +78,13 @@ func (r *Eval) run(ctx context.Context) (ret Object, err error) {
 		r.VM.Abort()
 		err = ctx.Err()
 	default:
+		// reset the abort flag here instead of in the goroutine: an Abort made
+		// below before the goroutine starts to run must not be lost.
+		r.VM.abort.Store(0)
 		go func() {
 			defer close(doneCh)
 			verifSync("eval.goroutine", r.VM)
-			ret, err = r.VM.Run(r.Globals, r.Locals...)
+			ret, err = r.VM.runVM(false, r.Globals, r.Locals...)
 		}()
 
 		select {
